@@ -27,7 +27,7 @@ func genC18(seed uint64, tier string) *Scenario {
 		class = r.pick(2, 3, 3, 4)
 		// giant operands (170-360 words; scratch requests above 512 words) are
 		// expensive under the every-yield memory monitor: rare in the quick tier
-		if pg := map[string]float64{"thorough": 0.12}[tier]; r.chance(pg + 0.003) {
+		if pg := map[string]float64{"thorough": 0.12}[tier]; r.chance(pg + 0.05) {
 			class = 5
 		}
 	}
@@ -61,6 +61,10 @@ func genC18(seed uint64, tier string) *Scenario {
 	if r.chance(0.3) {
 		// single-kind run
 		menu = []string{menu[r.intn(len(menu))]}
+	}
+	if class == 5 {
+		menu = []string{"Mul", "Mul", "Quo", "Sqrt", "Mul"}
+		maxOps = 4
 	}
 	opID := 0
 	for t := 0; t < nTasks; t++ {
@@ -173,9 +177,12 @@ func fillParams(r rng, op *Op) {
 
 // addPreemptions fills sc.Preempt from the seed, given the measured yields per
 // op of the sequential reference run.
-func addPreemptions(sc *Scenario, yields map[int]int, windows map[int][]int) {
+func addPreemptions(sc *Scenario, yields map[int]int, windows, atomics map[int][]int) {
 	r := newRng(sc.Seed, 1818)
 	kind := r.pick(1, 1, 2, 3, 3)
+	if len(atomics) > 0 && r.chance(0.5) {
+		kind = 3
+	}
 	nt := len(sc.Tasks)
 	if nt < 2 {
 		return
@@ -218,7 +225,20 @@ func addPreemptions(sc *Scenario, yields map[int]int, windows map[int][]int) {
 		if len(sc.Preempt) > 400 {
 			sc.Preempt = sc.Preempt[:400]
 		}
-	case 3: // targeted: inside pool-holding windows and right after a Put
+	case 3: // targeted: inside pool-holding windows and right after a Put; next to sync/atomic statements
+		if len(atomics) > 0 && r.chance(0.7) {
+			// lock-free code: a preemption between two atomic operations is where it breaks
+			windows = atomics
+		} else if len(atomics) > 0 {
+			merged := map[int][]int{}
+			for id, w := range windows {
+				merged[id] = append(merged[id], w...)
+			}
+			for id, w := range atomics {
+				merged[id] = append(merged[id], w...)
+			}
+			windows = merged
+		}
 		var ids []int
 		for id := range windows {
 			ids = append(ids, id)
@@ -515,11 +535,14 @@ func prepareC18(sc *Scenario) *Outcome {
 			yields[op.ID] = ref[t][i].Yields
 		}
 	}
-	addPreemptions(sc, yields, lastWindows)
+	addPreemptions(sc, yields, lastWindows, lastAtomic)
 	return out
 }
 
 var lastWindows map[int][]int
+
+// lastAtomic: per op, yield indices next to sync/atomic statements and lock operations.
+var lastAtomic map[int][]int
 
 // refC18Windows is refC18 plus recording of pool windows per op.
 func refC18Windows(sc *Scenario) ([][]Result, *Outcome) {
@@ -529,10 +552,11 @@ func refC18Windows(sc *Scenario) ([][]Result, *Outcome) {
 			lastWindows[op] = append(lastWindows[op], k)
 		}
 	}
+	lastAtomic = map[int][]int{}
 	verifrt.InterestTrace = func(task, op, k int) {
 		if op >= 0 {
 			// the yield before the statement, and the one right after it
-			lastWindows[op] = append(lastWindows[op], k, k+1)
+			lastAtomic[op] = append(lastAtomic[op], k, k+1)
 		}
 	}
 	defer func() { verifrt.PoolTrace = nil; verifrt.InterestTrace = nil }()
